@@ -337,6 +337,26 @@ def m_makedirs(interp, name, mode=0o777, exist_ok=False):
     return None
 
 
+def _os_fs_call(name):
+    """os-level calls on a path. Inside a unit that uses the file-system model they must go through the model
+    (a native call would look at the real disk, find nothing, and hide the effect from the frame obligations)."""
+    def m(interp, path, *a, **k):
+        import pathlib
+        if "fs" not in ctx().ghost:
+            try:
+                return getattr(_os, name)(path, *a, **k)
+            except Exception as ex:
+                raise RaiseSig(ex)
+        if name in ("unlink", "remove"):
+            return path_method(interp, path if isinstance(path, pathlib.PurePath) else pathlib.Path(path), "unlink", (), {})
+        raise Unsupported(f"os.{name} is not modelled (it would touch the real file system)")
+    return m
+
+
+for _n in ("unlink", "remove", "rename", "replace", "rmdir", "truncate", "link", "symlink", "chmod", "removedirs", "renames"):
+    model(getattr(_os, _n))(_os_fs_call(_n))
+
+
 PURE_PATH_METHODS = {"with_name", "with_suffix", "relative_to", "joinpath", "is_absolute", "as_posix", "__truediv__",
                      "__rtruediv__", "__str__", "__fspath__", "__eq__", "__hash__", "match"}
 
